@@ -146,10 +146,10 @@ def scheme_rule(ctx, p):
         (f"{R}.constant:Constant", "constant_regularization_matrix_from", {"coefficient": "self.coefficient", "neighbors": "linear_obj.neighbors", "neighbors_sizes": "linear_obj.neighbors.sizes"}),
         (f"{R}.constant_zeroth:ConstantZeroth", "constant_zeroth_regularization_matrix_from", {"coefficient": "self.coefficient_neighbor", "coefficient_zeroth": "self.coefficient_zeroth", "neighbors": "linear_obj.neighbors", "neighbors_sizes": "linear_obj.neighbors.sizes"}),
         (f"{R}.zeroth:Zeroth", "zeroth_regularization_matrix_from", {"coefficient": "self.coefficient", "pixels": "linear_obj.params"}),
-        (f"{R}.adaptive_brightness:AdaptiveBrightness", "weighted_regularization_matrix_from", {"regularization_weights": "regularization_weights", "neighbors": "linear_obj.source_plane_mesh_grid.neighbors", "neighbors_sizes": "linear_obj.source_plane_mesh_grid.neighbors.sizes"}),
-        (f"{R}.brightness_zeroth:BrightnessZeroth", "brightness_zeroth_regularization_matrix_from", {"regularization_weights": "regularization_weights"}),
-        (f"{R}.adaptive_brightness_split:AdaptiveBrightnessSplit", "pixel_splitted_regularization_matrix_from", {"regularization_weights": "regularization_weights", "splitted_mappings": "splitted_mappings", "splitted_sizes": "splitted_sizes", "splitted_weights": "splitted_weights"}),
-        (f"{R}.constant_split:ConstantSplit", "pixel_splitted_regularization_matrix_from", {"regularization_weights": "regularization_weights", "splitted_mappings": "splitted_mappings", "splitted_sizes": "splitted_sizes", "splitted_weights": "splitted_weights"}),
+        (f"{R}.adaptive_brightness:AdaptiveBrightness", "weighted_regularization_matrix_from", {"regularization_weights": "self.regularization_weights_from(linear_obj=linear_obj)", "neighbors": "linear_obj.source_plane_mesh_grid.neighbors", "neighbors_sizes": "linear_obj.source_plane_mesh_grid.neighbors.sizes"}),
+        (f"{R}.brightness_zeroth:BrightnessZeroth", "brightness_zeroth_regularization_matrix_from", {"regularization_weights": "self.regularization_weights_from(linear_obj=linear_obj)"}),
+        (f"{R}.adaptive_brightness_split:AdaptiveBrightnessSplit", "pixel_splitted_regularization_matrix_from", {"regularization_weights": "self.regularization_weights_from(linear_obj=linear_obj)", "splitted_mappings": "splitted_mappings", "splitted_sizes": "splitted_sizes", "splitted_weights": "splitted_weights"}),
+        (f"{R}.constant_split:ConstantSplit", "pixel_splitted_regularization_matrix_from", {"regularization_weights": canon_src("np.full(fill_value=self.coefficient, shape=(int(len(splitted_mappings) / 4),))"), "splitted_mappings": "splitted_mappings", "splitted_sizes": "splitted_sizes", "splitted_weights": "splitted_weights"}),
     ]
     n = 0
     for ck, util, want in spec:
@@ -159,22 +159,20 @@ def scheme_rule(ctx, p):
             raise AnchorMissing(f"{ck}.regularization_matrix_from")
         callee = p.func(f"{RU}:{util}")
         cs = wire.calls_to(p, m, callee.key)
-        got = {k: norm_text(v) for k, v in wire.kw(cs[0], callee).items()} if len(cs) == 1 else {}
+        got = wire.kwr(m, cs[0], callee) if len(cs) == 1 else {}   # name-free: local temporaries inlined
         rets = wire.returns_of(m)
         n += 1
-        ctx.ob(rule, m.key, got == want and len(rets) == 1 and rets[0].value is cs[0], where=m, node=cs[0] if cs else m.node, construct=str(got), message=f"expected {util}({want}) returned untouched")
-        # where the util takes weights, they are the scheme's own reported weights for the same object
-        if "regularization_weights" in want:
-            src = [norm_text(nn.value) for nn in m.body_nodes() if isinstance(nn, ast.Assign) and norm_text(nn.targets[0]) == "regularization_weights"]
-            okw = src == ["self.regularization_weights_from(linear_obj=linear_obj)"] or (ck.endswith("ConstantSplit") and src == ["np.full(fill_value=self.coefficient, shape=(pixels,))"])
-            ctx.ob(rule, m.key + ":own-weights", okw, where=m, node=m.node, construct=str(src), message="the matrix must be built from the weights the scheme itself reports for this linear object")
+        ctx.ob(rule, m.key, got == want and len(rets) == 1 and wire.is_value_of(m, rets[0].value, cs[0]), where=m, node=cs[0] if cs else m.node, construct=str(got),
+               message=f"expected {util}({want}) returned untouched (the weights being the ones the scheme itself reports for this linear object)")
         if "splitted_mappings" in want:
             rs = p.func(f"{RU}:reg_split_from")
             c2 = wire.calls_to(p, m, rs.key)
-            g2 = {k: norm_text(v) for k, v in wire.kw(c2[0], rs).items()} if len(c2) == 1 else {}
-            src = [norm_text(nn.value) for nn in m.body_nodes() if isinstance(nn, ast.Assign) and norm_text(nn.targets[0]) == "pix_sub_weights_split_cross"]
-            ctx.ob(rule, m.key + ":split-tables", g2 == {"splitted_mappings": "pix_sub_weights_split_cross.mappings", "splitted_sizes": "pix_sub_weights_split_cross.sizes", "splitted_weights": "pix_sub_weights_split_cross.weights"} and src == ["linear_obj.pix_sub_weights_split_cross"],
-                   where=m, node=c2[0] if c2 else m.node, construct=str(g2), message="the split-cross tables must be the object's own")
+            g2 = wire.kwr(m, c2[0], rs) if len(c2) == 1 else {}
+            # the three tables handed to the matrix util are the three results of reg_split_from, in order
+            unpack = [nn for nn in m.body_nodes() if isinstance(nn, ast.Assign) and c2 and nn.value is c2[0] and isinstance(nn.targets[0], ast.Tuple)]
+            oku = len(unpack) == 1 and [norm_text(e) for e in unpack[0].targets[0].elts] == ["splitted_mappings", "splitted_sizes", "splitted_weights"]
+            ctx.ob(rule, m.key + ":split-tables", oku and g2 == {"splitted_mappings": "linear_obj.pix_sub_weights_split_cross.mappings", "splitted_sizes": "linear_obj.pix_sub_weights_split_cross.sizes", "splitted_weights": "linear_obj.pix_sub_weights_split_cross.weights"},
+                   where=m, node=c2[0] if c2 else m.node, construct=str(g2), message="the split-cross tables must be the object's own, passed through reg_split_from")
     ctx.require_count(rule, "scheme wiring instances", n, 7)
     # reg_split_from mutates its arguments: every implementation of pix_sub_weights_split_cross must be a plain (non-cached) property so that each call receives fresh tables
     for c in p.all_classes():
@@ -182,14 +180,13 @@ def scheme_rule(ctx, p):
         if m is not None:
             ctx.ob(rule, m.key + ":fresh", m.is_property and not m.is_cached, where=m, node=m.node, construct=str(m.decorators), message="pix_sub_weights_split_cross must not be cached: reg_split_from modifies the tables it is given in place")
     # weights reported by the adaptive schemes use the scheme's own coefficients and the object's own pixel signals
-    for ck, util, want in ((f"{R}.adaptive_brightness:AdaptiveBrightness", "adaptive_regularization_weights_from", {"inner_coefficient": "self.inner_coefficient", "outer_coefficient": "self.outer_coefficient", "pixel_signals": "pixel_signals"}),
-                           (f"{R}.brightness_zeroth:BrightnessZeroth", "brightness_zeroth_regularization_weights_from", {"coefficient": "self.coefficient", "pixel_signals": "pixel_signals"})):
+    for ck, util, want in ((f"{R}.adaptive_brightness:AdaptiveBrightness", "adaptive_regularization_weights_from", {"inner_coefficient": "self.inner_coefficient", "outer_coefficient": "self.outer_coefficient", "pixel_signals": "linear_obj.pixel_signals_from(signal_scale=self.signal_scale)"}),
+                           (f"{R}.brightness_zeroth:BrightnessZeroth", "brightness_zeroth_regularization_weights_from", {"coefficient": "self.coefficient", "pixel_signals": "linear_obj.pixel_signals_from(signal_scale=self.signal_scale)"})):
         m = p.cls(ck).methods.get("regularization_weights_from")
         callee = p.func(f"{RU}:{util}")
         cs = wire.calls_to(p, m, callee.key)
-        got = {k: norm_text(v) for k, v in wire.kw(cs[0], callee).items()} if len(cs) == 1 else {}
-        src = [norm_text(nn.value) for nn in m.body_nodes() if isinstance(nn, ast.Assign) and norm_text(nn.targets[0]) == "pixel_signals"]
-        ctx.ob(rule, m.key, got == want and src == ["linear_obj.pixel_signals_from(signal_scale=self.signal_scale)"], where=m, node=m.node, construct=f"{got}; signals {src}", message=f"expected {want} with the object's pixel signals at the scheme's signal scale")
+        got = wire.kwr(m, cs[0], callee) if len(cs) == 1 else {}
+        ctx.ob(rule, m.key, got == want, where=m, node=m.node, construct=f"{got}", message=f"expected {want}: the object's pixel signals at the scheme's signal scale")
 
 
 def block_rule(ctx, p):
